@@ -421,17 +421,19 @@ the formatted text parses to formats to the same text again (idempotence). For Q
 the theorem below instantiates it for the two MODELS restricted to the fragment, and the `frag`
 differential ties the two models to the two Rust functions on that fragment.
 
-Covered after step 3a: one statement that is a sequence of one or more steps (`,` / newline
+Covered after step 3b: one statement that is a sequence of one or more steps (`,` / newline
 separated); each step — and each field value — a chain of one or more terms; a term is a bare
 identifier, a bare tuple name, an integer or binary literal, a single-line string without holes, or
-an anonymous or named tuple of unnamed / named fields; no trivia. Chains of SEVERAL terms are
-restricted (`chainOk`) to juxtaposition chains, argument-first application `[x, y] f`: no term but
-the last is a bare identifier and the last term is not a tuple with fields — so that no step is
-"tall" (no blank lines between steps), no `~>` continuation line is printed and `chain_doc` never
-takes its flattened-head path. The two MODELS cover all chains of these terms (pipelines with `~>`
-lines, tall steps with their blank lines, chains ending in a container) and agree with the
-implementation there too (differential); only the theorems need the restriction.
-Outside (decided by the implementation oracle only): the chains excluded by `chainOk`, bindings and
+an anonymous or named tuple of unnamed / named fields; no trivia. Chains of several terms include
+PIPELINES (`a ~> f`: after a bare identifier the chain may break onto `~> ` continuation lines).
+Two restrictions remain for the theorems: (1) `chainOk` — the last term of a chain of several terms
+is not a tuple with fields (else `chain_doc` takes its flattened-head path, `pretty::flatten`); (2)
+`WFProg` — a program of SEVERAL steps has no pipeline among its steps (a pipeline that breaks is a
+"tall" step, set off by blank lines from its neighbours; pipelines are fine as the only step and
+inside tuples). The two MODELS cover all chains of these terms — tall steps with their blank lines
+and chains ending in a container included — and agree with the implementation there too
+(differential); only the theorems need the restrictions.
+Outside (decided by the implementation oracle only): the chains and programs excluded by (1), (2), bindings and
 patterns (`x = …`, `(a) = …` — hence the `(`-initial step rules of 0ca76af / 63d9fac), blocks and
 branches, functions, spawns, selects, strings with holes and `"""` strings, accessors, imports,
 spreads, type aliases, and all comments / blank lines. -/
